@@ -374,7 +374,12 @@ impl World {
 			// (the shadow by its own rule, the live monitor because its manager had not been pumped)
 			let reorged = self.out.counters.get("probe:reorg_removed_transactions").copied().unwrap_or(0) > 0;
 			let live_unpolled = self.nodes[n].last_poll_step < self.last_reorg_step;
-			let unreleased = reorged && (!sh.release_events || live_unpolled);
+			// (the latched variant only explains differences in HTLC balances)
+			let only_htlc_diff = ba.iter().filter(|x| !bb.contains(x)).chain(bb.iter().filter(|x| !ba.contains(x))).all(|x| {
+				x.starts_with("MaybeTimeoutClaimableHTLC") || x.starts_with("MaybePreimageClaimableHTLC") || x.starts_with("ContentiousClaimable")
+			});
+			let unreleased = reorged
+				&& (!sh.release_events || live_unpolled || (self.nodes[n].unpolled_at_reorg && only_htlc_diff));
 			let tag = if unreleased {
 				" [pending monitor events were polled on one side only (live or shadow) and a reorganisation removed transactions: a still-pending HTLCEvent suppresses re-recording the HTLC's resolution when it is re-confirmed]"
 			} else {
@@ -416,6 +421,11 @@ impl World {
 		let removed = self.chain.reorg(depth, readmit);
 		if !removed.is_empty() {
 			self.last_reorg_step = self.step;
+			for x in self.nodes.iter_mut() {
+				if x.last_poll_step <= x.last_sync_step {
+					x.unpolled_at_reorg = true;
+				}
+			}
 		}
 		if !readmit && self.readmit_foreign {
 			// only what live nodes handed to their broadcasters is lost (they are responsible for
